@@ -96,6 +96,41 @@ func init() {
 				_, _ = p.Decrypt(ct)
 			}
 		}})
+		// structure-aware variants: a ciphertext whose policy has five leaves
+		// and four gates, with every gate field (class, In0, In1, Out) swept
+		// over all wire numbers, so that malformed-but-parseable formulas
+		// (cycles, self-feeding gates, shared wires, dangling outputs) reach
+		// Satisfaction / toposort / share reconstruction.
+		{
+			var pol5 tkn20.Policy
+			if err := pol5.FromString("((a: 1 or b: 2) and c: 3) or (d: 4 and not e: 5)"); err != nil {
+				panic(err)
+			}
+			var attrs5 tkn20.Attributes
+			attrs5.FromMap(map[string]string{"a": "1", "c": "3", "d": "4", "e": "6"})
+			ak5, err := msk.KeyGen(lib.NewRng("c10/tkn20", 11), attrs5)
+			if err != nil {
+				panic(err)
+			}
+			ct5, err := pk.Encrypt(lib.NewRng("c10/tkn20", 12), pol5, []byte("message"))
+			if err != nil {
+				panic(err)
+			}
+			crafted := craftPolicies(ct5)
+			if len(crafted) < 100 {
+				panic("harness: tkn20 ciphertext layout not recognised")
+			}
+			reg("ABE", entry{name: "tkn20.Decrypt(crafted-policy)", seeds: [][]byte{ct5}, extra: crafted, max: 2500, f: func(b []byte) {
+				_, _ = ak5.Decrypt(b)
+				_ = attrs5.CouldDecrypt(b)
+				var p tkn20.Policy
+				if p.ExtractFromCiphertext(b) == nil {
+					_ = p.String()
+					_ = p.Satisfaction(attrs5)
+					_ = p.ExtractAttributeValuePairs()
+				}
+			}})
+		}
 		pols := [][]byte{
 			[]byte("(country: fr or country: de) and not (level: low)"), []byte("a:b"), []byte("not not a:b"), []byte("(a:b"), []byte("a:b)"),
 			[]byte("a: b and"), []byte("and"), []byte("not"), []byte("()"), []byte("a:"), []byte(":b"), []byte("a:b or (c:d and (e:f or not (g:h)))"),
@@ -474,3 +509,81 @@ func TestVerifTSS(t *testing.T)  { runGroup(t, "TSS") }
 func TestVerifRSA(t *testing.T)  { runGroup(t, "RSA") }
 func TestVerifAEAD(t *testing.T) { runGroup(t, "AEAD") }
 func TestVerifOT(t *testing.T)   { runGroup(t, "OT") }
+
+// craftPolicies locates the formula inside a tkn20 ciphertext (version tag,
+// 16-bit-prefixed id, 32-bit-prefixed MAC data = 32-bit-prefixed header ...;
+// header = 16-bit-prefixed policy; policy = 16-bit formula length, formula =
+// 16-bit gate count, 7 bytes per gate: class, In0, In1, Out) and returns
+// copies with single gate fields rewritten.
+func craftPolicies(ct []byte) [][]byte {
+	const tag = 6
+	if len(ct) < tag+2 {
+		return nil
+	}
+	idLen := int(ct[tag]) | int(ct[tag+1])<<8
+	o := tag + 2 + idLen + 4 + 4 + 2 // start of the policy
+	if len(ct) < o+4 {
+		return nil
+	}
+	fLen := int(ct[o]) | int(ct[o+1])<<8
+	n := int(ct[o+2]) | int(ct[o+3])<<8
+	if fLen != 2+7*n || n == 0 || n > 32 || len(ct) < o+2+fLen {
+		return nil
+	}
+	g0 := o + 4
+	var out [][]byte
+	put16 := func(b []byte, at, v int) { b[at] = byte(v); b[at+1] = byte(v >> 8) }
+	for g := 0; g < n; g++ {
+		base := g0 + 7*g
+		for _, cls := range []int{0, 1, 2, 3, 255} {
+			c := lib.Clone(ct)
+			c[base] = byte(cls)
+			out = append(out, c)
+		}
+		for field := 0; field < 3; field++ {
+			for v := 0; v <= 2*n+2; v++ {
+				c := lib.Clone(ct)
+				put16(c, base+1+2*field, v)
+				out = append(out, c)
+			}
+			for _, v := range []int{255, 256, 0x7FFF, 0xFFFF} {
+				c := lib.Clone(ct)
+				put16(c, base+1+2*field, v)
+				out = append(out, c)
+			}
+		}
+		// two-field rewrites: a gate feeding itself, two gates swapped
+		for v := 0; v <= 2*n; v++ {
+			c := lib.Clone(ct)
+			put16(c, base+1, v)
+			put16(c, base+5, v)
+			out = append(out, c)
+			c = lib.Clone(ct)
+			put16(c, base+3, v)
+			put16(c, base+5, v)
+			out = append(out, c)
+		}
+		for h := g + 1; h < n; h++ {
+			c := lib.Clone(ct)
+			copy(c[base:base+7], ct[g0+7*h:g0+7*h+7])
+			copy(c[g0+7*h:g0+7*h+7], ct[base:base+7])
+			out = append(out, c)
+			// exchange only the outputs / only the inputs of two gates
+			c = lib.Clone(ct)
+			copy(c[base+5:base+7], ct[g0+7*h+5:g0+7*h+7])
+			copy(c[g0+7*h+5:g0+7*h+7], ct[base+5:base+7])
+			out = append(out, c)
+			c = lib.Clone(ct)
+			copy(c[base+1:base+5], ct[g0+7*h+1:g0+7*h+5])
+			copy(c[g0+7*h+1:g0+7*h+5], ct[base+1:base+5])
+			out = append(out, c)
+		}
+	}
+	// gate count altered
+	for _, v := range []int{0, 1, n - 1, n + 1, 2 * n, 0xFFFF} {
+		c := lib.Clone(ct)
+		put16(c, o+2, v)
+		out = append(out, c)
+	}
+	return out
+}
